@@ -77,14 +77,15 @@ def answer (toks : List String) : String :=
       match convertLon n.toNat! (rats lon) with
       | some out => showRats out
       | none => "raise:IndexError"
-  -- `max_link_distance` from the distance matrix and the (undirected) adjacency (exact)
+  -- `max_link_distance` from the distance matrix and the adjacency matrix (exact)
   | ["maxld", n, d, a] =>
       let N := n.toNat!
-      showOptRats ((List.range N).map (maxLinkDist (mat (ratMat d)) (mat (ratMat a)) N))
-  -- `(in|out)average_link_distance(geometry_corrected)` (exact)
+      showOptRats ((List.range N).map (maxLinkDistNet (mat (ratMat d)) (mat (ratMat a)) N))
+  -- `(in|out|)average_link_distance(geometry_corrected)`; mode in|out|dir|undir (exact)
   | ["ald", mode, corr, n, d, a] =>
       let N := n.toNat!
-      let f := if mode == "in" then inALD (α := Rat) else outALD (α := Rat)
+      let f := if mode == "in" then inALD (α := Rat) else if mode == "out" then outALD (α := Rat)
+        else avgALD (α := Rat) (mode == "dir")
       showOptRats ((List.range N).map
         (f (mat (ratMat d)) (mat (ratMat a)) N (N : Rat) (corr == "1")))
   | _ => "bad-request"
